@@ -15,6 +15,7 @@ EXPLANATION = (
 EXPLANATION_ADDED = '(R5) advertised window = inbound queue capacity (=C03.R3/R4); (R6) Connect/Acknowledge cells never replace a live slot (C10 table); (R7) no empty Push reaches the wire (=C05.R1); R2 also requires that a message dequeued from the outbound queue always reaches start_send before the poll function returns.'
 EXPLANATION_ADDED2 = ' (R8) the whole C03 rule set as a precondition of loss-free delivery; (R9) the C09 rules on Push frames. (R11) at teardown the source is dispatched before the flow table is drained and a dispatch error does not end that loop (= C05.R5).'
 EXPLANATION = EXPLANATION + " Added while testing against seeded changes: " + EXPLANATION_ADDED + EXPLANATION_ADDED2
+EXPLANATION = EXPLANATION + ' Rounds 12-13: (R11) at teardown the source is dispatched before the flow table is drained and one undispatchable message does not end that loop (= C05.R5).'
 ASSUMPTIONS = ["tokio channels are FIFO; the WebSocket sink preserves message order"]
 NOT_DECIDED = "that no interleaving corrupts or duplicates bytes (follows from R1-R4 + FIFO, not re-proved)"
 THOROUGH_CONFIGS = ["mux-nodefault", "mux-std-only", "mux-yawc"]
